@@ -96,7 +96,7 @@ EXPORT errno_t _wcsicmp_s_chk(const wchar_t *restrict dest, rsize_t dmax,
         return RCNEGATE(ESZEROL);
     }
     if (destbos == BOS_UNKNOWN) {
-        CHK_DMAX_MAX("wcsicmp_s", RSIZE_MAX_STR)
+        CHK_DMAX_MAX("wcsicmp_s", RSIZE_MAX_WSTR)
         BND_CHK_PTR_BOUNDS(dest, destsz);
     } else {
         CHK_DESTW_OVR("wcsicmp_s", destsz, destbos)
